@@ -404,6 +404,137 @@ def _oracle_curve(args):
             lib, cls = b"\xff", type(e).__name__
         det_k.append((hname, msg, k, h1, lib, cls))
 
+    simple = lambda r_, s_, o_: (r_, s_)
+
+    def det_event(label, fn, k, h1, dd=None):
+        """fn() -> (r, s) of a deterministic signature; judged against the independent nonce k and OpenSSL's k*G"""
+        try:
+            rl, sl = fn()
+            lib, cls = int(rl).to_bytes(L, "big") + int(sl).to_bytes(L, "big"), ""
+        except Exception as e:
+            lib, cls = b"\xff", type(e).__name__
+        det_k.append((label, None, k, h1, lib, cls, d if dd is None else dd))
+
+    def accept_event(label, hname, fn_sign, msg, verify=None, pub=None):
+        """fn_sign() -> DER signature made by the library: must verify in the library (verify(sig), default vk with the
+        per-call hash) and in OpenSSL under `dgst -<hname>`"""
+        H = getattr(hashlib, hname)
+        try:
+            sig = fn_sign()
+            lv, cls = (verify or (lambda sg: lib_verify(vk, sg, msg, H, util.sigdecode_der)))(sig)
+            ev("accept", label, lv, q_verify(hname, sig, msg, pub), cls)
+        except Exception as e:
+            ev("accept", label, "reject", "accept", type(e).__name__)
+
+    def extras():
+        import array
+        # ---- E. digest produced by one hash, HMAC-DRBG of RFC 6979 run with another (sizes differ)
+        msg = msgs["sha256"]
+        pairs = [(a, b) for a in HASHES for b in HASHES if a != b]
+        if not thorough:
+            pairs = [("sha256", "sha1"), ("sha1", "sha256"), ("sha512", "sha256"), ("sha224", "sha512"), ("sha384", "sha224")]
+        for hd, hg in pairs:
+            Hd, Hg = getattr(hashlib, hd), getattr(hashlib, hg)
+            dig = Hd(msg).digest()
+            k = rfc6979_k(n, d, hg, dig)
+            det_event("%s digest of msg=%s signed with sign_digest_deterministic(hashfunc=%s)" % (hd, msg.hex(), hg),
+                      lambda: sk.sign_digest_deterministic(dig, hashfunc=Hg, sigencode=simple, allow_truncate=True), k, dig)
+            det_event("%s digest of msg=%s signed with sign_digest_deterministic() of a key created with hashfunc=%s" % (hd, msg.hex(), hg),
+                      lambda: keys.SigningKey.from_secret_exponent(d, cv, hashfunc=Hg).sign_digest_deterministic(dig, sigencode=simple, allow_truncate=True), k, dig)
+        # ---- F. every bytes-like representation the library accepts for data / digest arguments (probed on the unchanged
+        #         tree: all of these are accepted by sign*, verify*), each judged like the bytes form
+        forms = [("bytes", bytes), ("bytearray", bytearray), ("memoryview", memoryview), ("array-B", lambda b: array.array("B", b)),
+                 ("array-H", lambda b: array.array("H", b)), ("array-I", lambda b: array.array("I", b)),
+                 ("memoryview-cast-H", lambda b: memoryview(b).cast("H")), ("memoryview-of-array-I", lambda b: memoryview(array.array("I", b)))]
+        msg4 = bytes(r.randrange(256) for _ in range(16))
+        for hname in (("sha512", "sha256", "sha1") if thorough else ("sha512", "sha224" if nb < 224 else "sha256")):
+            H = getattr(hashlib, hname)
+            dig = H(msg4).digest()
+            k = rfc6979_k(n, d, hname, dig)
+            kn = r.randrange(1, n)
+            ref_sig = sk.sign(msg4, hashfunc=H, sigencode=util.sigencode_der, k=kn)
+            for fname, f in forms:
+                tag = "%s msg=%s given as %s: " % (hname, msg4.hex(), fname)
+                det_event(tag + "sign_digest_deterministic(digest)", lambda: sk.sign_digest_deterministic(f(dig), hashfunc=H, sigencode=simple, allow_truncate=True), k, dig)
+                det_event(tag + "sign_deterministic(data)", lambda: sk.sign_deterministic(f(msg4), hashfunc=H, sigencode=simple), k, dig)
+                det_event(tag + "sign_deterministic(data, extra_entropy=b'' as that form)",
+                          lambda: sk.sign_deterministic(msg4, hashfunc=H, sigencode=simple, extra_entropy=f(b"")), k, dig)
+                accept_event(tag + "sign(data, k given) -> library and OpenSSL verify", hname,
+                             lambda: sk.sign(f(msg4), hashfunc=H, sigencode=util.sigencode_der, k=kn), msg4)
+                accept_event(tag + "sign_digest(digest, k given) -> library and OpenSSL verify", hname,
+                             lambda: sk.sign_digest(f(dig), sigencode=util.sigencode_der, k=kn, allow_truncate=True), msg4)
+
+                def lv_(fn):
+                    try:
+                        ok = fn()
+                        return ("accept" if ok is True else "reject"), ""
+                    except Exception as e:
+                        return "reject", type(e).__name__
+                for what, fn in (("verify(sig, data)", lambda: vk.verify(ref_sig, f(msg4), hashfunc=H, sigdecode=util.sigdecode_der)),
+                                 ("verify_digest(sig, digest)", lambda: vk.verify_digest(ref_sig, f(dig), sigdecode=util.sigdecode_der, allow_truncate=True)),
+                                 ("verify(sig, tampered data)", lambda: vk.verify(ref_sig, f(bytes([msg4[0] ^ 1]) + msg4[1:]), hashfunc=H, sigdecode=util.sigdecode_der))):
+                    lv, cls = lv_(fn)
+                    tampered = "tampered" in what
+                    ev("verdict" if tampered else "accept", tag + what, lv,
+                       q_verify(hname, ref_sig, (bytes([msg4[0] ^ 1]) + msg4[1:]) if tampered else msg4), cls)
+        # ---- G. keys obtained through every constructor WITH a non-default hashfunc, then used without a per-call hash
+        hname = ("sha256", "sha384", "sha512", "sha224")[ci % 4]
+        H = getattr(hashlib, hname)
+        msg = msgs[hname]
+        h1 = H(msg).digest()
+        k = rfc6979_k(n, d, hname, h1)
+        kn = r.randrange(1, n)
+        ent = lambda nbytes: bytes(r.randrange(256) for _ in range(nbytes))
+        ctors = [("from_secret_exponent", lambda: keys.SigningKey.from_secret_exponent(d, cv, hashfunc=H)),
+                 ("from_string", lambda: keys.SigningKey.from_string(sk.to_string(), cv, hashfunc=H)),
+                 ("from_der(ssleay)", lambda: keys.SigningKey.from_der(sk.to_der(), hashfunc=H)),
+                 ("from_der(pkcs8)", lambda: keys.SigningKey.from_der(sk.to_der(format="pkcs8"), hashfunc=H)),
+                 ("from_pem(ssleay)", lambda: keys.SigningKey.from_pem(sk.to_pem(), hashfunc=H)),
+                 ("from_pem(pkcs8)", lambda: keys.SigningKey.from_pem(sk.to_pem(format="pkcs8"), hashfunc=H)),
+                 ("from_pem(ssleay, str)", lambda: keys.SigningKey.from_pem(sk.to_pem().decode(), hashfunc=H)),
+                 ("generate", lambda: keys.SigningKey.generate(cv, entropy=ent, hashfunc=H))]
+        for cname, make in ctors:
+            tag = "SigningKey.%s(..., hashfunc=%s) then no per-call hash, msg=%s: " % (cname, hname, msg.hex())
+            try:
+                skc = make()
+                dd = int(skc.privkey.secret_multiplier)
+            except Exception as e:
+                ev("flags", tag + "constructor raised " + eclib.mro(e), [0], [], type(e).__name__)
+                continue
+            pubc = None
+            if dd != d:
+                pubc = files.put(eclib.ossl_pub_raw(cv, dd)[1], "pubg")
+            det_event(tag + "sign_deterministic(msg)", lambda: skc.sign_deterministic(msg, sigencode=simple),
+                      k if dd == d else rfc6979_k(n, dd, hname, h1), h1, dd)
+
+            def ver_own(sg):
+                try:
+                    ok = skc.verifying_key.verify(sg, msg, sigdecode=util.sigdecode_der)          # no per-call hash either
+                    return ("accept" if ok is True else "reject"), ""
+                except Exception as e:
+                    return "reject", type(e).__name__
+            accept_event(tag + "sign(msg, k given) -> its verifying_key (no per-call hash) and OpenSSL dgst -%s verify" % hname, hname,
+                         lambda: skc.sign(msg, sigencode=util.sigencode_der, k=kn), msg, ver_own, pubc)
+            accept_event(tag + "sign_deterministic(msg) -> its verifying_key and OpenSSL dgst -%s verify" % hname, hname,
+                         lambda: skc.sign_deterministic(msg, sigencode=util.sigencode_der), msg, ver_own, pubc)
+        vctors = [("from_string", lambda: keys.VerifyingKey.from_string(vk.to_string(), cv, hashfunc=H)),
+                  ("from_der", lambda: keys.VerifyingKey.from_der(vk.to_der(), hashfunc=H)),
+                  ("from_pem", lambda: keys.VerifyingKey.from_pem(vk.to_pem(), hashfunc=H)),
+                  ("from_public_point", lambda: keys.VerifyingKey.from_public_point(vk.pubkey.point, cv, hashfunc=H)),
+                  ("from_public_key_recovery", lambda: [v for v in keys.VerifyingKey.from_public_key_recovery(
+                      osigs[hname], msg, cv, hashfunc=H, sigdecode=util.sigdecode_der) if v.to_string() == vk.to_string()][0])]
+        if cv.curve.cofactor() != 1:
+            vctors.pop()          # key recovery only tries x = r; with n << p (SECP112r2) x = r + j*n is common: outside this property
+        for cname, make in vctors:
+            tag = "VerifyingKey.%s(..., hashfunc=%s) then verify() without per-call hash: " % (cname, hname)
+            try:
+                vkc = make()
+                ok = vkc.verify(osigs[hname], msg, sigdecode=util.sigdecode_der)
+                lv, cls = ("accept" if ok is True else "reject"), ""
+            except Exception as e:
+                lv, cls = "reject", type(e).__name__
+            ev("accept", tag + "OpenSSL-made %s signature" % hname, lv, q_verify(hname, osigs[hname], msg), cls)
+
     for hname in HASHES:
         try:
             per_hash(hname)
@@ -413,19 +544,32 @@ def _oracle_curve(args):
             ev("flags", "%s: the library raised %s: %s while producing the events of this hash" % (hname, eclib.mro(e), str(e)[:200]), [0], [],
                type(e).__name__)
 
+    try:
+        extras()
+    except MachineryError:
+        raise
+    except Exception as e:
+        ev("flags", "the library raised %s: %s while producing the constructor / buffer-form / hash-pair events" % (eclib.mro(e), str(e)[:200]), [0], [],
+           type(e).__name__)
+
     # ---- OpenSSL: k*G for the deterministic nonces, then all verification queries
-    kx = eclib.pmap(lambda t: eclib.ossl_pub_raw(cv, t[2])[0], det_k, workers=5)
-    ncalls += len(det_k)
-    for (hname, msg, k, h1, lib, cls), raw in zip(det_k, kx):
+    uk = sorted({t[2] for t in det_k})
+    kxs = dict(zip(uk, eclib.pmap(lambda k_: eclib.ossl_pub_raw(cv, k_)[0], uk, workers=5)))
+    ncalls += len(uk)
+    for t in det_k:
+        hname, msg, k, h1, lib, cls = t[:6]
+        dd = t[6] if len(t) > 6 else d
+        raw = kxs[k]
         x = int.from_bytes(raw[:len(raw) // 2], "big")
         rr = x % n
         z = int.from_bytes(h1, "big")
         if len(h1) * 8 > nb:
             z >>= len(h1) * 8 - nb
-        ss = pow(k, -1, n) * (z + rr * d) % n
+        ss = pow(k, -1, n) * (z + rr * dd) % n
         if rr == 0 or ss == 0:
             continue
-        ev("eq", "%s msg=%s sign_deterministic (r, s) = (x(kG) mod n from OpenSSL, k^-1(z + r d)) with the independent RFC 6979 nonce k=%d" % (hname, msg.hex(), k),
+        what = ("%s msg=%s sign_deterministic" % (hname, msg.hex())) if msg is not None else hname
+        ev("eq", what + " (r, s) = (x(kG) mod n from OpenSSL, k^-1(z + r d)) with the independent RFC 6979 nonce k=%d" % k,
            list(lib), list(rr.to_bytes(L, "big") + ss.to_bytes(L, "big")), cls, ctx="rfc6979")
     qkeys = list(queries)
     maxlen = len(eclib.der_sig(n, n))        # EVP_PKEY_size of the key in OpenSSL 3 (ECDSA_size encodes the order twice)
